@@ -234,9 +234,19 @@ func (f *facts) add(l string) {
 	}
 }
 
+// g2Identity is the compressed encoding of the identity of G2: the "aggregate" of no signature at all.
+func g2Identity() []byte {
+	inf := make([]byte, crypto.BLS12381SignatureSize)
+	inf[0] = 0xc0
+	return inf
+}
+
 func sigTok(sig []byte) string {
 	if len(sig) == 0 {
 		return "-"
+	}
+	if bytes.Equal(sig, g2Identity()) {
+		return "identity"
 	}
 	return "s" + short(sig)
 }
